@@ -34,8 +34,10 @@ def gen_run(rng, i):
     # resilient runs: half of the replicated dsa / mgm runs lose one or two agents while running (repair pipeline:
     # repair computations, migrated computations started and paused, replication callbacks on agent removal)
     opts["removal"] = []
-    if algo in ("dsa", "mgm") and not opts["slow_stop"] and rng.random() < 0.7:
+    if algo in ("dsa", "mgm") and not opts["slow_stop"] and rng.random() < 0.9:
         opts["replication"] = True
+        if rng.random() < 0.5:
+            opts["k"] = 1  # one replica: an orphan then has a single candidate (repair computations without neighbours)
         opts["removal"] = rng.sample(["a%d" % j for j in range(na)], 1 if na <= 2 else rng.randint(1, min(2, opts["k"])))
         opts["pause_resume"] = False
     params = {}
